@@ -68,7 +68,7 @@ def group_oracle(metas, parsed):
 
 def check():
     return solvercheck.run(
-        "C12", None,
+        "C12", "C12.v",
         [dict(builder=builder, n_quick=360, n_thorough=6000, group_oracle=group_oracle)],
         [oracles.oracle_shapes], TB,
         "groups of 6 runs of one problem (plain, repeat, +t_eval, +dense_output, +non-terminal events, all three) over the 4 explicit "
